@@ -94,12 +94,14 @@ theorem run_shape (ρ : List FunDef) : ∀ (f : Nat) (j : Job) (s : St), (run ρ
       · split
         · ihrun ih (.node b) s
           have key : ∀ u : St, u.shape = s.shape →
-              (match u.objAt il with
-               | .int j => run ρ f (.cforL il hi b) (u.setObj il (.int (j + 1)))
+              (match u.val il with
+               | .int j => if (u.cell il).const then ((.thrown (.evalErr .assignConst), u) : R) else run ρ f (.cforL il hi b) (u.setVal il (.int (j + 1)))
                | _ => (.thrown (.evalErr .other), u)).2.shape = s.shape := by
             intro u hu
             split
-            · rw [ih]; exact hu
+            · split
+              · exact hu
+              · rw [ih]; exact hu
             · exact hu
           cases oo <;> simp only [] <;> first | exact key _ hh | exact hh
         · simp
@@ -301,7 +303,7 @@ theorem run_shape (ρ : List FunDef) : ∀ (f : Nat) (j : Job) (s : St), (run ρ
         · rfl
         · rename_i s2 h2
           have e2 := shape_addObject _ _ _ _ h2
-          ihrun ih (.cforL t.objs.length hi b) s2
+          ihrun ih (.cforL (t.allocV (.int lo)).1 hi b) s2
           cases oo <;> simp [hh, e2]
       | brk => rfl
       | cont => rfl
